@@ -27,6 +27,9 @@ pub open spec fn zw_wf<W: Write + io::Seek>(w: &ZipWriter<W>) -> bool {
     // an encrypted (stored) entry buffers its data; the sink below is parked right behind the entry's local header
     &&& (w.inner matches GenericZipWriter::Storer(MaybeEncrypted::Encrypted(z)) ==> (!z.writer.g_fault() ==>
             z.writer.g_pos() == w.stats.start && lfh_end(w.files@.last()) <= w.stats.start))
+    // C08: an entry that was not declared large never holds more than 2^32-1 bytes while the writer is usable: crossing
+    // the limit closes the writer (ZipWriter::write), so the 32-bit size fields patched in by finish_file cannot wrap
+    &&& (!w.writing_raw && w.files@.len() > 0 && !w.files@.last().large_file && !(w.inner is Closed) ==> w.stats.bytes_written <= U32MAX)
 }
 // Only relevant after a device fault inside end_extra_data: the recorded data start still has room for one more
 // extra field.  Without a fault it follows from zw_wf (data start == sink position <= 2^63).  After such a fault
